@@ -18,7 +18,7 @@ META = {
     'bounds': {'quick': 'step lemma: every current state x boundary set in {[0,180,360],[0,160,360],[0,120,240,360]}, angle and '
                         'buffer width symbolic reals (covers sequences of any length); end-to-end _rotamers T<=3 frames; '
                         'transitions: 1-D length<=5, 2-D rows<=3 x length<=3, states symbolic ints',
-               'thorough': 'end-to-end T<=4; transitions 1-D length<=6, 2-D rows<=3 x length<=4'},
+               'thorough': 'end-to-end T<=6; transitions 1-D length<=8, 2-D rows<=3 x length<=5'},
     'stubs': ['np.digitize on a symbolic scalar = number of bin edges <= x (NumPy definition, right=False)'],
     'assumptions': ['angles in [0,360) and different from the exact gate values b_k +/- w (mod 360), as the property states',
                     'exact real arithmetic', '0 <= buffer width < 360/n_basins (the range the function accepts)'],
@@ -274,12 +274,12 @@ def jobs(tier):
     for hb in BOUNDARY_SETS:
         for s in range(len(hb) - 1):
             add('step_job', 'step[%s,s=%d]' % (hb, s), hb=hb, s=s)
-        for T in ((1, 2, 3) if q else (1, 2, 3, 4)):
+        for T in ((1, 2, 3) if q else (1, 2, 3, 4, 5, 6)):
             add('run_job_', 'run[%s,T=%d]' % (hb, T), hb=hb, T=T)
         add('run_job_', 'run[%s,T=3,w=0]' % hb, hb=hb, T=3, zero_buffer=True)
-    for L in ((2, 3, 4, 5) if q else (2, 3, 4, 5, 6)):
+    for L in ((2, 3, 4, 5) if q else (2, 3, 4, 5, 6, 7, 8)):
         add('transitions_job', 'transitions[1d,L=%d]' % L, shape=(L,))
     for R in (1, 2, 3):
-        for L in ((2, 3) if q else (2, 3, 4)):
+        for L in ((2, 3) if q else (2, 3, 4, 5)):
             add('transitions_job', 'transitions[2d,%dx%d]' % (R, L), shape=(R, L), S=2 if R * L > 6 else 3)
     return J
